@@ -49,6 +49,7 @@ def units(tier: str) -> list[tuple]:
         for u in tokspace.units(v, n):
             us.append(("lift",) + u)
     us.append(("gated",))
+    us += [("literr", i) for i in range(len(LIT_CARRIERS))]
     from ..explore import corpus
 
     ne = len(corpus.error_snippets())
@@ -62,6 +63,29 @@ def units(tier: str) -> list[tuple]:
     for carrier in ("str3err", "fstr3err", "parenerr"):
         us += charspace.units("nasty_ff", carrier, 3 if q else 4)
     return us
+
+
+# errors found while a literal is evaluated (bad escapes, an integer beyond the digit limit), with the faulty spot on the
+# first, second or third line of a literal that spans lines, after text / fields / non-ASCII characters, in each kind of literal
+LIT_ERRORS = ["\\x", "\\xZ1", "\\N{NOT A REAL NAME}", "\\N{", "\\u12", "\\U0001f60", "\\N"]
+LIT_CARRIERS = [
+    "x = 'a<E>'\n", "x = '''<E>'''\n", "x = '''a\nb <E>\nc'''\n", "x = '''a\n\n  <E>'''\n", "x = \"\"\"\u00e9\n\u00e9\u00e9 <E> z\"\"\"\n", "x = f'a<E>{b}'\n", "x = f'{b}<E>'\n",
+    "msg = f'''Hello {name},\n  the sign is <E>\n'''\n", "msg = f'''{a}\n{b} <E>\n\n<E>'''\n", "y = (1,\n     'a' '<E>',\n     2)\n", "z = f'{a:<E>}'\n",
+    "z = f'''{a:>\n<E>}'''\n", "w = b'<E>'\n", "w = b'''a\nb<E>'''\n", "p'<E>'\n", "pf'''a\n{b}<E>'''\n", "f(x, '''s\n''' f'''t\n<E>''')\n", "x = 'ok' \\\n    '<E>'\n",
+    "$(echo 'a<E>')\n", "f!(a) + '<E>'\n", "x = <N>\n", "x = [1,\n     <N>]\n", "match v:\n    case <N>:\n        pass\n", "y = -<N> + '\u00e9'\n", "x = 1; y = <N>j; z = <N>\n",
+]
+LIT_PRE = ["", "a = 1\n", "\u00e9 = '''m\nn'''\n\n"]
+
+
+def _literr(i: int):
+    car = LIT_CARRIERS[i]
+    fills = LIT_ERRORS if "<E>" in car else ["9" * 4301, "1" + "0" * 5000]
+    for e in fills:
+        t = car.replace("<E>", e).replace("<N>", e)
+        for pre in LIT_PRE:
+            yield {"src": pre + t, "mode": "exec", "file": True}
+            yield {"src": pre + t.rstrip("\n"), "mode": "exec", "file": True}
+            yield {"src": (pre + t).replace("\n", "\r\n"), "mode": "exec", "file": True}
 
 
 def lift(src: str):
@@ -87,6 +111,9 @@ GATED = [
 
 
 def cases(unit: tuple):
+    if unit[0] == "literr":
+        yield from _literr(unit[1])
+        return
     if unit[0] == "lift":
         from ..explore import tokspace
 
